@@ -672,6 +672,11 @@ def rule_offset(db, chk, cfg, rule="POLY.offset"):
                 if d.get("kind") == "VarDecl" and "Point<" in (dqt(d) or "") and (not init or all(c0.get("kind") == "CXXConstructExpr" and not kids(c0) for c0 in init)):
                     vec_decl = d
                     break
+                # ... or initialised by a conditional expression on j == k (the same choice written as one declaration)
+                if d.get("kind") == "VarDecl" and "Point<" in (dqt(d) or "") and init and any(
+                        y.get("kind") == "ConditionalOperator" and canon(kids(y)[0]).replace(" ", "").strip("()") in ("j==k", "k==j") for y in walk(init[-1])):
+                    vec_decl = d
+                    break
         if vec_decl is not None:
             break
     if vec_decl is None:
